@@ -16,6 +16,25 @@ def replay(inp, shape, failed):
     r = core.run(cmd, timeout=60)
     return (True if r.returncode == 1 else False if r.returncode == 0 else None), ' '.join(cmd[1:]) + ' -> ' + r.stdout.strip()
 
+def use_harness(tier):
+    rx = r'chaiscript::ChaiScript_Basic::use\('
+    stubs = [r'chaiscript::ChaiScript_Basic::eval_file', r'std::_Rb_tree<.*>::', r'file_not_found_error::'] + STRING_MODEL
+    g, info = core.translate(FAM, [rx], stubs, tag='F2_probe', cuts=[r'Boxed_Value::~Boxed_Value'])
+    ext = [e.split('|')[0].strip() for e in info['ext']]
+    def one(pat):
+        m = [e for e in ext if re.search(pat, e)]
+        if len(m) != 1: raise core.BuildError('use(): expected exactly one external matching %s, found %d' % (pat, len(m)))
+        return 'F_' + core.cname(m[0])
+    mret = re.search(r'^(struct agg\d+) F_\w*24_M_get_insert_unique_posE', core.fread(g), re.M)
+    TIF = '_ZTIN10chaiscript9exception20file_not_found_errorE'
+    d = {'USE': core.csym(FAM, rx), 'EVAL_FILE': one(r'ChaiScript_Basic9eval_fileE'), 'SET_FIND': one(r'_Rb_tree\w*4findE'), 'SET_INSERT_POS': one(r'24_M_get_insert_unique_posE'), 'SET_INSERT': one(r'10_M_insert_I'),
+         'SET_POS_RET': mret.group(1) if mret else 'struct agg1', 'FNF_CTOR': one(r'file_not_found_errorC[12]E'), 'FNF_DTOR': one(r'file_not_found_errorD[12]E'), 'TI_FNF': '((char*)&g_%s)' % TIF, 'STRING_LITERALS_OPAQUE': 1, 'VERIF_CALL_V1(f,a)': '__VERIF_v1_hook(f,a)'}
+    wit = {1: ('witness: evaluated', 'witness: already used', 'witness: file fails', 'witness: not found'), 2: ('witness: evaluated', 'witness: already used', 'witness: file fails', 'witness: not found')}
+    h = Harness('F2.use', FAM, [rx], 'c19_use.c', stubs=stubs, cuts=[r'Boxed_Value::~Boxed_Value'], shapes=[dict(d, P=p, _tag='search paths=%d' % p, _witness=wit[p]) for p in (1, 2)], opts=['--unwind', '6'], timeout=300, mem_gb=6, string_model=True,
+                inputs=['used', 'beh'], note='per search path: already used or not, and what evaluating the file does (value / not found here / nested failure / other exception): symbolic')
+    h.need_globals = [TIF]
+    return h
+
 def harnesses(tier):
     rx = r'ChaiScript_Basic::load_file'
     g, info = core.translate(FAM, [rx], [r'file_not_found_error::', r'std::basic_ifstream<.*>::~basic_ifstream'] + STRING_MODEL, tag='F1_load_file')
@@ -27,8 +46,8 @@ def harnesses(tier):
     ls = [0, 1, 2, 3, 4, 5] if tier == 'quick' else [0, 1, 2, 3, 4, 5, 6, 7, 8, 10]
     shapes = [dict(d, L=l, _tag='length=%d' % l, _witness=('witness: missing file', 'witness: file loaded') + (('witness: byte order mark',) if l >= 3 else ())) for l in ls]
     return [Harness('F1.load_file', FAM, [rx], 'c19_load_file.c', stubs=[r'file_not_found_error::', r'std::basic_ifstream<.*>::~basic_ifstream'], shapes=shapes, opts=['--unwind', '18'], timeout=300, mem_gb=6, string_model=True,
-                    defines={'STRING_LITERALS_OPAQUE': 1}, inputs=['file_bytes', 'file_exists'], note='every content of exactly L bytes; file present or missing', replay=replay)]
+                    defines={'STRING_LITERALS_OPAQUE': 1}, inputs=['file_bytes', 'file_exists'], note='every content of exactly L bytes; file present or missing', replay=replay), use_harness(tier)]
 
 ASSUMPTIONS = ['std::ifstream is a contract model written from the standard (short read => eofbit|failbit; failed stream ignores seekg/read; tellg == -1 when failed; clear() resets)',
                'std::string via the SSO-only model: file content <= 15 bytes']
-OUTSIDE = ['use() bookkeeping and search-path order (not built yet)', 'the parser seeing the loaded text (C01)']
+OUTSIDE = ['eval_file itself (load_file + eval: F1 + the parser/evaluator properties); module loading', 'the parser seeing the loaded text (C01)']
